@@ -1,6 +1,6 @@
 SPECIFICATION Spec
 CONSTANTS
-  SampleK = 37
+  SampleK = 97
   Emit = TRUE
 INVARIANT EmitCases
 CHECK_DEADLOCK FALSE
